@@ -366,6 +366,8 @@ def run(rec, tier, seed):
     rec.exhaustive.append(f"all raw strings of length<={rawlen} over the adversarial alphabet x 2 settings")
     n = 400 if quick else 20000
     campaign.parallel(rec, _shard_hyp, [(seed * 1000 + i, n) for i in range(ns)])
+    if not quick:
+        campaign.atheris_tier(rec, "C18", 60000, seed, procs=8, max_len=48)
 
 
 def replay(case):
@@ -382,3 +384,25 @@ def replay(case):
             return None
         return check_vocab(case["text"], bool(case["dc"]))[1]
     return None
+
+
+def fuzz_targets():
+    vocabulary()
+    cp = progs.CP
+
+    def raw(dc):
+        def f(data):
+            s = "".join(cp[b] for b in data)
+            st_, fail = check_vocab(s, dc)
+            return [(fail[0], {"kind": "raw", "text": s, "dc": dc}, fail[1])] if fail else []
+        return f
+
+    def slot(data):
+        if len(data) < 3:
+            return []
+        s_, w_, dc = data[0] % len(SLOTS), data[1] % len(WRAPPERS), bool(data[2] & 1)
+        payload = "".join(cp[b] for b in data[3:])
+        st_, fail = check_slot(s_, w_, payload, dc)
+        return [(fail[0], {"kind": "slot", "slot": s_, "wrap": w_, "payload": payload, "dc": dc}, fail[1])] if fail else []
+
+    return {"raw-compress": raw(True), "raw-nocompress": raw(False), "slot": slot}
